@@ -258,6 +258,25 @@ def run(ctx):
         else:
             ctx.ok("R18.2b", key, "back-end text untouched")
     ctx.floor("R18.2b", "serialization_entry_points", n_entry, 2)
+    # ---- R18.2c a saved file holds exactly the new document
+    ctx.rule("R18.2c", "every function that opens a file for writing replaces its content: `File::create`, or `OpenOptions` with `truncate(true)` / `create_new(true)`; opening an existing, longer file with only `write(true)` leaves the tail of the old document behind the new one (trailing garbage for JSON, and for YAML a stale document that still parses)")
+    n_open = 0
+    for f in F.fns.values():
+        if not f.id.startswith(("layout21", "gds21", "lef21")) or not f.body or f.crate.endswith(".bin"):
+            continue
+        b = Body(f)
+        names = [callee_name(t) or "" for bi, t in b.calls()]
+        creates = [n for n in names if re.search(r"fs::File::create$|File::create_new$", n)]
+        oo_write = [bi for bi, t in b.calls() if re.search(r"OpenOptions::write$|OpenOptions::append$", callee_name(t) or "")]
+        if not creates and not oo_write:
+            continue
+        n_open += 1
+        key = "%s/open-for-write" % f.short
+        if oo_write and not any(re.search(r"OpenOptions::(truncate|create_new|append)$", n) for n in names):
+            ctx.violation("R18.2c", key, "%s opens its output with OpenOptions::write but without truncate(true): saving over a longer file leaves the old tail in place, and the file no longer loads to the value that was saved" % f.short, b.site(oo_write[0]), key)
+        else:
+            ctx.ok("R18.2c", key, "content replaced")
+    ctx.floor("R18.2c", "file_writing_functions", n_open, 2)
     # distinct formats must use distinct back-ends (Json and Yaml must not collapse)
     used = {}
     for vname, per in table.items():
